@@ -2,7 +2,7 @@
    The EVM is an oracle (clause_result); the only thing assumed about it is oracle_ok: a clause hands back at most the gas
    it was given and a non-negative refund counter.  W = the rest of the world state, O = a clause output. *)
 From Coq Require Import ZArith List Bool Lia.
-From Verif Require Import Ledger.Model Ledger.Proofs TxExec.Model TxExec.Proofs.
+From Verif Require Import Ledger.Model Ledger.Proofs TxExec.Model TxExec.Proofs TxExec.ProofsBlock TxExec.ProofsAdopt.
 Import ListNotations.
 Open Scope Z_scope.
 
@@ -62,6 +62,41 @@ Section C07.
     intros OK H0 HL HF H.
     exact (block_gas_lemma W O clause_result write_credit OK e txs HL HF 0 st [] used st' rcs (conj (Z.le_refl 0) H0) eq_refl H).
   Qed.
+
+  (* 5. packer Flow.Adopt in full (pre-checks in the order of the code, execution, flow bookkeeping): a rejected tx — whatever
+        the reason: blocked, bad features / chain tag, from the future, expired, no gas room, fee, known, dependency, failure to
+        start — leaves the state as it was; an adopted one is exactly an adoption of the gas/exec core, is not already known,
+        lies in its block-ref window, and its dependency (if any) is a non-reverted earlier tx *)
+  Theorem adopt_full_rejected_unchanged e fe fs t ai ci st0 c st :
+    adopt_full W O clause_result write_credit e fe fs t ai ci st0 = FRejected W O c st -> st = st0.
+  Proof. exact (adopt_full_rejected W O clause_result write_credit e fe fs t ai ci st0 c st). Qed.
+
+  Theorem adopt_full_refines e fe fs t ai ci st0 st rc fs' :
+    adopt_full W O clause_result write_credit e fe fs t ai ci st0 = FAdopted W O st rc fs' ->
+    adopt W O clause_result write_credit e (fs_used fs) t ci st0 = Adopted W O st rc /\
+    fs' = mkFS (fs_used fs + r_gas_used O rc) ((ai_id ai, r_reverted O rc) :: fs_processed fs) /\
+    adopt_pre e fe fs t ai = None.
+  Proof. exact (adopt_full_adopted W O clause_result write_credit e fe fs t ai ci st0 st rc fs'). Qed.
+
+  Theorem adopted_tx_facts e fe fs t ai : adopt_pre e fe fs t ai = None ->
+    lookup_processed (ai_id ai) (fs_processed fs) = None /\ ai_chain_has_tx ai = false /\
+    t_ref_num t <= e_number e <= t_ref_num t + ai_expiration ai /\
+    (forall dep, ai_depends_on ai = Some dep ->
+       lookup_processed dep (fs_processed fs) = Some false \/
+       (lookup_processed dep (fs_processed fs) = None /\ ai_chain_dep ai = Some false)).
+  Proof. exact (adopt_pre_none_facts e fe fs t ai). Qed.
+
+  Theorem block_gas_full e fe txs st fs' st' rcs :
+    oracle_ok W O clause_result -> 0 <= e_gas_limit e -> 2 * e_gas_limit e < two64 ->
+    Forall (fun p => 0 <= t_gas (fst (fst p)) < two64 /\
+                     Forall (fun c => 0 <= c_zeros c /\ 0 <= c_nonzeros c) (t_clauses (fst (fst p)))) txs ->
+    adopt_all_full W O clause_result write_credit e fe (mkFS 0 []) txs st [] = (fs', st', rcs) ->
+    fs_used fs' = sum_used O rcs /\ 0 <= fs_used fs' <= e_gas_limit e.
+  Proof.
+    intros OK H0 HL HF H.
+    exact (block_gas_full_lemma W O clause_result write_credit OK e fe txs HL HF (mkFS 0 []) st [] fs' st' rcs
+             (conj (Z.le_refl 0) H0) eq_refl H).
+  Qed.
 End C07.
 
 (* non-vacuity: a concrete oracle satisfying oracle_ok; a 3-clause transaction whose 2nd clause fails after the 1st wrote *)
@@ -97,3 +132,7 @@ Print Assumptions tx_atomic.
 Print Assumptions not_started_unchanged.
 Print Assumptions adopt_rejected_unchanged.
 Print Assumptions block_gas.
+Print Assumptions adopt_full_rejected_unchanged.
+Print Assumptions adopt_full_refines.
+Print Assumptions adopted_tx_facts.
+Print Assumptions block_gas_full.
